@@ -36,10 +36,31 @@ def _types_run(ctx, harness):
         return set(re.findall(r"^case \S+ .*?type=(\S+)", f.read(), re.M))
 
 
+def _restore_untracked_gen():
+    """a run against a scratch tree (VERIF_REPO) leaves ITS Gen/PdataState.lean behind while that file is not yet tracked by git
+    (the runner restores tracked Gen files only): regenerate it from /repo"""
+    import fcntl, os, subprocess
+    from ..runner import LEAN, REPO, VERIF
+    if os.path.realpath(REPO) == "/repo":
+        return
+    rel = "lean/OtelVerif/Gen/PdataState.lean"
+    if subprocess.run(["git", "-C", VERIF, "ls-files", "--error-unmatch", rel], capture_output=True).returncode == 0:
+        return
+    with open(os.path.join(LEAN, ".verif.lock"), "w") as lock:
+        fcntl.flock(lock, fcntl.LOCK_EX)
+        env = dict(os.environ, GOFLAGS="-mod=mod", GOPROXY="off", GOSUMDB="off", GOTOOLCHAIN="local")
+        r = subprocess.run(["go", "run", "./cmd/pdatastate", "/repo"], cwd=os.path.join(VERIF, "translators"),
+                           capture_output=True, text=True, env=env)
+        if r.returncode == 0 and r.stdout:
+            with open(os.path.join(VERIF, rel), "w") as f:
+                f.write(r.stdout)
+
+
 def post(ctx):
     """coverage tie: every generated slice / primitive slice / message struct listed by the translators was RUN by the
     reflection harnesses of this very run (fail closed)"""
     from ..runner import TieBroken
+    _restore_untracked_gen()
     if ctx.replay is not None:
         return
     want = set()
@@ -80,6 +101,22 @@ def post(ctx):
         if st.get(k, 0) <= 0:
             raise TieBroken("extreme-value-coverage", "allmsgs harnesses report no %s" % k)
         ctx.cov["stats"]["coverage"][k] = st[k]
+    # part F: every payload type of the regenerated method table went through the state differential
+    try:
+        with open(_os.path.join(_LEAN, "OtelVerif/Gen/PdataState.lean")) as f:
+            body = f.read()
+        tys = _re.findall(r'"([a-z]+\.[A-Za-z0-9]+)"', _re.search(r"def types : List String := \[(.*?)\]", body, _re.S).group(1))
+        ids = [int(x) for x in _re.findall(r"\d+", _re.search(r"def payloads : List Nat := \[(.*?)\]", body).group(1))]
+        wantp2 = {tys[i] for i in ids}
+    except (FileNotFoundError, AttributeError, IndexError):
+        wantp2 = set()
+    gotp2 = _types_run(ctx, "rostate") | _types_run(ctx, "rostate-pprofile")
+    if not wantp2 or wantp2 - gotp2:
+        raise TieBroken("rostate-coverage", "payload types not run through the state differential: %s" % sorted(wantp2 - gotp2))
+    calls = ctx.cov["stats"].get("rostate", {}).get("state_calls", 0) + ctx.cov["stats"].get("rostate-pprofile", {}).get("state_calls", 0)
+    if calls <= 0:
+        raise TieBroken("rostate-coverage", "the state differential compared no call")
+    ctx.cov["stats"]["coverage"]["state_differential_calls"] = calls
     ctx.cov["stats"].setdefault("coverage", {}).update({"generated_slices_run": len(got & want), "generated_slices_listed": len(want),
                                                         "primitive_slices_run": len(gotp & wantp), "primitive_slices_listed": len(wantp)})
 
@@ -90,7 +127,8 @@ SPEC = Spec(
     lean_modules=["OtelVerif.Props.C07"],
     translators=[go_translator("pdatacensus", "OtelVerif/Gen/PdataCensus.lean"),
                  go_translator("pdatamsg", "OtelVerif/Gen/PdataMsg.lean"),
-                 go_translator("pdataslices", "OtelVerif/Gen/PdataSlices.lean")],
+                 go_translator("pdataslices", "OtelVerif/Gen/PdataSlices.lean"),
+                 go_translator("pdatastate", "OtelVerif/Gen/PdataState.lean")],
     harnesses=[
         H("witness", "TestVerifC07Witness", None, {"quick": 10, "thorough": 10}),
         H("ptrslice", "TestVerifC07PtrSlice", "drv_c07", {"quick": 12000, "thorough": 100000}),
@@ -113,6 +151,12 @@ SPEC = Spec(
         Harness(name="allmsgs-pprofile", module="pdata/pprofile", pkg="pdata/pprofile",
                 files={"zz_verif_c07_allslices_test.go": "c07/allslices_pprofile_test.go", "zz_verif_c07_allmsgs_test.go": "c07/allmsgs_pprofile_test.go"},
                 test="TestVerifC07AllMsgsProfile", driver=None, n={"quick": 13 * 24, "thorough": 13 * 400}),
+        Harness(name="rostate", module="pdata", pkg="pdata/plog",
+                files={"zz_verif_c07_allslices_test.go": "c07/allslices_test.go", "zz_verif_c07_allmsgs_test.go": "c07/allmsgs_test.go"},
+                test="TestVerifC07RoState", driver="drv_c07", n={"quick": 3 * 3, "thorough": 3 * 20}),
+        Harness(name="rostate-pprofile", module="pdata/pprofile", pkg="pdata/pprofile",
+                files={"zz_verif_c07_allslices_test.go": "c07/allslices_pprofile_test.go", "zz_verif_c07_allmsgs_test.go": "c07/allmsgs_pprofile_test.go"},
+                test="TestVerifC07RoStateProfile", driver="drv_c07", n={"quick": 3, "thorough": 20}),
         Harness(name="map", module="pdata", pkg="pdata/pcommon", files={"zz_verif_c07_map_test.go": "c07/map_test.go"},
                 test="TestVerifC07Map", driver="drv_c07", n={"quick": 12000, "thorough": 150000}),
         Harness(name="nest", module="pdata", pkg="pdata/pcommon", files={"zz_verif_c07_nest_test.go": "c07/nest_test.go"},
@@ -138,8 +182,17 @@ SPEC = Spec(
          "nest (exact differential against the Lean nested heap model): corpus of 2 scripted programs, then random programs of 5-50 ops "
          "(Set*/Put*/AppendEmpty with scalars, bytes, empty maps and slices at random positions, in-place bytes append, Remove, RemoveIf, "
          "EnsureCapacity, Clear, Value.CopyTo between disjoint positions at any depth, Map.CopyTo/Slice.CopyTo between disjoint containers, "
-         "Value.MoveTo between roots, read-only) over 2-4 root pcommon.Values nested up to depth 10; the dump of every root including the "
-         "capacity of every nested container is compared after every op; non-trivial = contains a copy. "
+         "Value.MoveTo between roots, read-only; Value.FromRaw with a NESTED raw input (maps / slices / []byte / scalars up to 4 levels, map "
+         "entry order read back from the result) at any position and Map.FromRaw / Slice.FromRaw directly on an existing container (one time "
+         "in four with an empty input), the caller keeping the raw input and scribbling on it afterwards, with a direct oracle 'the value reads "
+         "as the raw input') over 2-4 root pcommon.Values nested up to depth 10; the dump of every root including the "
+         "capacity of every nested container is compared after every op; non-trivial = contains a copy or a from-raw. "
+         "rostate / rostate-pprofile (exact differential against the Lean state-propagation model interpreted over the regenerated method "
+         "table + Lean oracle): for Logs / Metrics / Traces / Profiles payloads, randomly filled then force-populated and marked read-only, "
+         "EVERY call of the exhaustive read-only sweep (every mutator, scalar getter and CopyTo-from at every position reachable through the "
+         "accessors, with the position as receiver / destination / source) is sent with its accessor path; the model follows the path through "
+         "the table (whose state each child wrapper gets) and runs the leading AssertMutable statements of the method; observed panic vs "
+         "predicted; non-trivial = at least one call. "
          "elem-plog / elem-pmetric (exact differential against the nested model through the record embedding): random programs of 8-48 ops "
          "over 2-3 plog.LogRecordSlice / pmetric.ExemplarSlice handles (AppendEmpty, field sets, map operations on the element's attribute "
          "map and on maps nested in it, bytes append, slice RemoveIf/EnsureCapacity/CopyTo/MoveAndAppendTo, element CopyTo, Map.CopyTo and "
@@ -193,20 +246,38 @@ SPEC = Spec(
         "and are exercised separately: ptrslice-ptrace/-pmetric/-pprofile (Lean differential on one slice type each) and, by reflection, "
         "allslices / allslices-pprofile (every generated element slice) and allmsgs / allmsgs-pprofile (every generated message struct, Go oracles)",
         "the driver re-tabulates the heap function after every step (extensionally equal on allocated ids)",
+        "translator translators/cmd/pdatastate (go/ast): per exported value-receiver method of every wrapper type the maximal prefix of "
+        "AssertMutable statements with WHOSE state each checks (receiver / the single same-typed parameter / other), whether an assertion "
+        "occurs later, whether the body writes through an expression containing `orig`, and every wrapper-constructor call in the body "
+        "(incl. closures; calls of another method of the receiver hand on that method's constructions) with the wrapper type and whose "
+        "state it is given; delegating mutators must have the body `recv.A().CopyTo(dest.A())` (else failure). The Lean interpretation "
+        "(Model/C07State.lean: a wrapper = type + state cell, runAsserts, follow) is hand-written and tied by the rostate differential; "
+        "that the ORIG pointer handed to a child wrapper belongs to the same owner as the state is not checked by the translator "
+        "(observed by the sweep: a mutator that does not panic, or a panicking call that changed data)",
+        "nested from-raw: Value.FromRaw at a position is decomposed by the DRIVER, as the code does, into Set*/SetEmpty* (setRoot/setSlot) "
+        "followed by Map.FromRaw/Slice.FromRaw (OpR.fromRawList) on the new container; the order of a Go map's entries is an input "
+        "(read back from the result at every level); the raw input is a pure value in Lean (aliasing with the CALLER's byte arrays is "
+        "judged by the harness: pre-registered arrays in the separation oracle + scribbling on the kept input)",
     ],
     assumptions=[
         "single goroutine",
         "one handle = one top-level container; a second wrapper of the same container, or an element handle kept across RemoveIf / Sort / a "
         "growing AppendEmpty and used afterwards, is outside the programs considered",
-        "the read-only theorems are definitional (every model step checks the flag of the root NAMED BY AN INPUT of the op first); that the "
-        "code's accessors hand the parent's state to every child wrapper and that every mutator asserts the right state first is carried by "
-        "the regenerated census (syntactic) and by the exhaustive read-only sweep of the allmsgs harnesses, not by a Lean model of states",
-        "nested model: programs containing Slice.MoveAndAppendTo or nested Value.MoveTo/Map.MoveTo are not covered by "
-        "C07_nest_separation_all / C07_nest_frame_all (header-level theorem + exact differential only); for nested targets the result of "
-        "non-copy operations is stated per operation (C07_nest_*_result), there is no single pure program semantics",
+        "read-only: the per-family theorems C07_readonly / _map_ / _nest_ / _prim_ are definitional (the step checks the flag of the root "
+        "named by an input of the op); the non-definitional statement is part F (C07_readonly_reachable_mutators …): state cells, "
+        "propagation along accessor paths and the leading assertions interpreted from the regenerated method table. Part F does not model "
+        "the DATA (orig): 'panics without changing anything' there means 'panics in an assertion statement preceded by assertion statements "
+        "only'; that no data changed is observed by the sweep (dump before = after)",
+        "nested model: nested Value.MoveTo / Map.MoveTo (between positions that are not roots) are not in the model (Value.MoveTo between "
+        "roots is; Slice.MoveAndAppendTo between slices at any depth is covered at program level by C07_nest_move_append_nested / "
+        "C07_nest_separation_full / _frame_full); for nested targets the result of non-copy operations is stated per operation "
+        "(C07_nest_*_result, C07_nest_fromraw_result, C07_nest_move_append_roots for root slices), there is no single pure program "
+        "semantics on trees; every op the nest / elem differentials generate is checked by the driver to lie in the theorems' domain "
+        "(N.WfOpX, decidable; prop nestdomain)",
         "message structs (part E): nested fields are opaque and independence is not expressible in the message model; message-level copy / "
         "move / independence for all 38 structs + TraceState rests on the reflection harnesses (allmsgs) and the regenerated statement shapes",
-        "from-raw with nested raw input (Value/Map/Slice.FromRaw) and as-raw: Go oracles only (witness 7, tree, allmsgs fill)",
+        "as-raw (Value/Map/Slice.AsRaw): Go oracles only (witness 7, tree); from-raw with nested raw input is modelled (part C') for "
+        "pcommon.Value/Map/Slice; raw inputs of unsupported Go types (error branch of Value.FromRaw) are not generated",
         "copy-to / move-to / move-and-append-to are between distinct values (neither contains the other)",
         "programs reach sub-values from named roots at the time of the call (no handle to an element is kept across a removal of that element)",
     ],
